@@ -45,14 +45,12 @@ def CRS_LOOKUPS_PER_TRIANGLE : Nat := 3
 * `faceVal k` — what `get_base_face_triangle` / `get_reflected_face_triangle` compute for key `k`.
 * `sphFrom ft k` — the body of `compute_spherical_triangle` *after* it obtained the squashed face
   triangle `ft`: the outcome and the number of `CRS::get_vertex` calls made (1..3; an `Err` stops early).
-* `originChecked a` — `true` for `forward` (tests `origin_id < origins.len()` first), `false` for `inverse`.
 * `classify a` — `(origin_id, face_triangle_index, reflect)` as computed from the arguments.
 * `finish a ft st` — the final `polyhedral.forward/inverse` stage. -/
 structure Params (FT ST Args Res : Type) where
   numOrigins : Nat
   faceVal : FKey → FT
   sphFrom : FT → SKey → Outcome ST × Nat
-  originChecked : Args → Bool
   classify : Args → SKey
   finish : Args → FT → ST → Res
 
@@ -101,18 +99,29 @@ def getSphericalTriangle (s : MemoState FT ST) (k : SKey) : MemoState FT ST × O
       | (s1, .err e) => (s1, .err e)
       | (s1, .panic p) => (s1, .panic p)
 
-/-- `forward` (`originChecked a = true`) and `inverse` (`false`). -/
+/-- The common tail of `forward` and `inverse` after the origin check: `get_face_triangle(idx, reflect,
+false)`, then `get_spherical_triangle(idx, origin, reflect)`, then the polyhedral stage. -/
+def callCore (s : MemoState FT ST) (a : Args) : MemoState FT ST × Outcome Res :=
+  match getFaceTriangle P s ⟨(P.classify a).idx, (P.classify a).reflected, false⟩ with
+  | (s1, .ok ft) =>
+    match getSphericalTriangle P s1 (P.classify a) with
+    | (s2, .ok st) => (s2, .ok (P.finish a ft st))
+    | (s2, .err e) => (s2, .err e)
+    | (s2, .panic p) => (s2, .panic p)
+  | (s1, .err e) => (s1, .err e)
+  | (s1, .panic p) => (s1, .panic p)
+
+/-- `forward` and (since the repair d95ab4f) `inverse`: both validate `origin_id < origins.len()` before
+touching the memo. -/
 def call (s : MemoState FT ST) (a : Args) : MemoState FT ST × Outcome Res :=
-  if P.originChecked a && decide ((P.classify a).origin ≥ P.numOrigins) then (s, .err .invalidOrigin)
-  else
-    match getFaceTriangle P s ⟨(P.classify a).idx, (P.classify a).reflected, false⟩ with
-    | (s1, .ok ft) =>
-      match getSphericalTriangle P s1 (P.classify a) with
-      | (s2, .ok st) => (s2, .ok (P.finish a ft st))
-      | (s2, .err e) => (s2, .err e)
-      | (s2, .panic p) => (s2, .panic p)
-    | (s1, .err e) => (s1, .err e)
-    | (s1, .panic p) => (s1, .panic p)
+  if (P.classify a).origin ≥ P.numOrigins then (s, .err .invalidOrigin) else callCore P s a
+
+/-- FROZEN model of release v0.6.2: `inverse` (`isInverse a = true`) did *not* validate the origin before
+`get_spherical_triangle`, whose slot lookup precedes the origin check of `compute_spherical_triangle`.
+Kept only to document the defect (see `A5/Props/C13.lean`, `v062_history_dependent`). -/
+def callV062 (isInverse : Args → Bool) (s : MemoState FT ST) (a : Args) : MemoState FT ST × Outcome Res :=
+  if !isInverse a && decide ((P.classify a).origin ≥ P.numOrigins) then (s, .err .invalidOrigin)
+  else callCore P s a
 
 /-! ### the stateless reference: what a call returns as a function of its arguments only -/
 
@@ -131,7 +140,7 @@ def pureSph (k : SKey) : Outcome ST :=
     | .panic p => .panic p
 
 def pureCall (a : Args) : Outcome Res :=
-  if P.originChecked a && decide ((P.classify a).origin ≥ P.numOrigins) then .err .invalidOrigin
+  if (P.classify a).origin ≥ P.numOrigins then .err .invalidOrigin
   else
     match pureFace P ⟨(P.classify a).idx, (P.classify a).reflected, false⟩ with
     | .ok ft =>
